@@ -393,6 +393,62 @@ pub fn c16_dictionary(st: &mut Stats) -> Result<(), (Fail, String)> {
     Ok(())
 }
 
+/// Several threads parse and print different valid tokens at the same time for a while (a server that
+/// reads moves from many connections): every result must be the token's own value.
+pub fn c16_concurrent(millis: u64, st: &mut Stats) -> Check {
+    let dirs = [Direction::Up, Direction::Right, Direction::Down, Direction::Left];
+    let mut actions: Vec<Action> = vec![Action::Pass];
+    for p in ENGINE_PIECES.iter() {
+        actions.push(Action::Place(*p));
+    }
+    for i in 0..64u8 {
+        for d in dirs.iter() {
+            actions.push(Action::Move(Square::from_index(i), *d));
+        }
+    }
+    let texts: Vec<String> = actions.iter().map(action_text).collect();
+    let shared = std::sync::Arc::new((actions, texts));
+    let deadline = std::time::Instant::now() + std::time::Duration::from_millis(millis);
+    let hs: Vec<_> = (0..6usize)
+        .map(|t| {
+            let shared = shared.clone();
+            std::thread::spawn(move || -> Result<u64, String> {
+                let (actions, texts) = &*shared;
+                let mut n = 0u64;
+                let mut i = t * 41;
+                while std::time::Instant::now() < deadline {
+                    for _ in 0..2000 {
+                        i = (i + 1 + t) % actions.len();
+                        match Action::from_str(&texts[i]) {
+                            Ok(a) if a == actions[i] => {}
+                            Ok(a) => return Err(format!("{:?} parsed as {} while other threads were parsing other tokens", texts[i], action_text(&a))),
+                            Err(_) => return Err(format!("{:?} was rejected while other threads were parsing other tokens", texts[i])),
+                        }
+                        if n % 7 == 0 && actions[i].to_string() != texts[i] {
+                            return Err(format!("{:?} printed differently while other threads were printing", texts[i]));
+                        }
+                        n += 1;
+                    }
+                }
+                Ok(n)
+            })
+        })
+        .collect();
+    let mut total = 0u64;
+    for h in hs {
+        match h.join() {
+            Ok(Ok(n)) => total += n,
+            Ok(Err(e)) => return Err(Fail::new("C16:action_round_trip", e)),
+            Err(_) => return Err(Fail::new("C16:action_parse_panic", "a parsing thread panicked while other threads were parsing".into())),
+        }
+    }
+    st.add("tokens_parsed_concurrently", total);
+    if !st.frozen {
+        st.evaluations += total;
+    }
+    Ok(())
+}
+
 pub fn c16_bitboard(b: u64, st: &mut Stats) -> Check {
     st.eval();
     let got = guard(|| map_bit_board_to_squares(b)).map_err(|p| Fail::new("C16:map_panic", format!("map_bit_board_to_squares({:#x}): {}", b, p)))?;
